@@ -184,6 +184,23 @@ def prepare_model(ss, mdl, table, r):
                 arr[:] = vals
             except (TypeError, ValueError):
                 pass
+    # configuration fields that generated functions take as arguments (e.g. the load-model weights of PQ) are changed
+    # after the System exists, as the documentation tells users to do
+    used = set()
+    for lst in (mdl.calls.f_args, mdl.calls.g_args, mdl.calls.sns_args):
+        used.update(lst)
+    for dct in (mdl.calls.s_args, mdl.calls.ia_args, mdl.calls.ii_args, mdl.calls.j_args):
+        for lst in dct.values():
+            used.update(lst)
+    for key in list(mdl.config.__dict__):
+        if key.startswith("_") or key not in used:
+            continue
+        val = mdl.config.__dict__[key]
+        if isinstance(val, bool) or not isinstance(val, (int, float)):
+            continue
+        slot = len(names)
+        names.append("config." + key)
+        mdl.config.__dict__[key] = float(_levels(table, r, 0, slot)) + 0.125 * (r % 3)
     ss.dae.t = np.array(0.75 + 0.5 * r)
     mdl.refresh_inputs()
     mdl.refresh_inputs_arg()
@@ -202,8 +219,9 @@ def namespace(ss, mdl):
             ns[fname] = arr
     for v in mdl.cache.all_vars.values():
         ns[v.name] = v.v
-    for key, val in mdl.config.as_dict().items():
-        ns[key] = np.array(val)
+    for key, val in mdl.config.__dict__.items():       # the fields as they are now (not a cached copy)
+        if not key.startswith("_"):
+            ns[key] = np.array(val)
     ns["sys_f"] = float(ss.config.freq)
     ns["sys_mva"] = float(ss.config.mva)
     ns["dae_t"] = ss.dae.t
@@ -369,6 +387,38 @@ def probe_model(ss, mname, table, rounds, ev=None):
                 continue
             dfn, eq = _same(got, exp)
             tally.add(key, "s", 0, sname, dfn, eq)
+        # ---- constant services through the library's update: evaluated in declaration order, each holding its own value ----
+        if not mdl.flags.s_num and all(getattr(sv, "v_numeric", None) is None for sv in mdl.services.values()) and len(mdl.calls.s):
+            ns2 = dict(ns)
+            expected = {}
+            try:
+                for sname, svc in mdl.services.items():
+                    if sname in mdl.calls.s and getattr(svc, "v_str", None) is not None:
+                        val = np.asarray(declared("%s.%s.svc" % (mname, sname), svc.v_str, ns2))
+                        val = np.broadcast_to(val, (N_DEV,)).copy() if val.size in (1, N_DEV) else val
+                        expected[sname] = val
+                        ns2[sname] = val
+                with np.errstate(all="ignore"):
+                    mdl.s_update()
+                after = {sname: np.array(mdl.services[sname].v) for sname in expected}
+                for pos, (sname, val) in enumerate(expected.items()):
+                    dfn, eq = _same(after[sname], val)
+                    tally.add("%s.%s.svc_update" % (mname, sname), "su", pos, sname, dfn, eq)
+                # every input is now changed in place: a constant service must keep the value it was given
+                for obj in list(mdl.num_params.values()) + list(mdl.cache.all_vars.values()) + list(mdl.services_ext.values()):
+                    arr = getattr(obj, "v", None)
+                    if isinstance(arr, np.ndarray) and arr.dtype.kind in "fc" and arr.shape == (N_DEV,):
+                        arr += 0.37
+                for pos, sname in enumerate(expected):
+                    if sname in mdl.services_var:
+                        continue            # recomputed from the variables at every iteration by design
+                    now = np.array(mdl.services[sname].v)
+                    same = bool(now.shape == after[sname].shape and np.array_equal(now, after[sname], equal_nan=True))
+                    ok = np.full(N_DEV, same)
+                    tally.add("%s.%s.svc_holds_value" % (mname, sname), "sh", pos, sname, np.ones(N_DEV, dtype=bool), ok)
+                ns = prepare_model(ss, mdl, table, r)        # restore the lattice values of this round
+            except Exception as ex:
+                problems.append("s_update: %s: %s" % (type(ex).__name__, str(ex)[:100]))
         # ---- variable services through the library's update (sequential ones in order, the others delivered by position) ----
         if len(mdl.services_var) and not mdl.flags.sv_num and all(s.v_numeric is None for s in mdl.services_var.values()):
             ns2 = dict(ns)
